@@ -507,7 +507,25 @@ P_Item(acc, c, cid, it) ==
                 errs |-> acc.errs]
 RECURSIVE P_Items(_, _, _, _)
 P_Items(acc, c, cid, items) == IF items = <<>> THEN acc ELSE P_Items(P_Item(acc, c, cid, Head(items)), c, cid, Tail(items))
-\* one block: create or reopen, store the items, prune the container
+\* a loop_ construct [names, rows]: names already present in the container are reported (CIF_DUP_ITEMNAME) and their
+\* column is parsed and dropped; the loop is created (category NULL) with the remaining names and one packet per row.
+\* (Names repeated inside one header are the subject of an open finding and do not occur in DOCS.)
+P_Loop(acc, c, cid, lp) ==
+    LET st == acc.st
+        x == CHOOSE y \in P_ContsOf(st, c) : y.id = cid
+        taken(n) == \E l \in P_LoopsOf(st, c, cid) : NormN(n) \in Norms(l)
+        keep == {i \in 1..Len(lp.names) : ~taken(lp.names[i])}
+        ndup == Len(lp.names) - Cardinality(keep)
+        errs == acc.errs \o [k \in 1..ndup |-> DUP_ITEMNAME]
+        l == [cif |-> c, cid |-> cid, num |-> x.nl, cat |-> "NULL", last |-> Len(lp.rows),
+              items |-> {[norm |-> NormN(lp.names[i]), orig |-> lp.names[i]] : i \in keep}]
+    IN IF keep = {} THEN [st |-> st, errs |-> errs]
+       ELSE [st |-> [st EXCEPT !.loops = @ \cup {l},
+                               !.cont = (@ \ {x}) \cup {[x EXCEPT !.nl = @ + 1]},
+                               !.vals = @ \cup {[cif |-> c, cid |-> cid, name |-> NormN(lp.names[i]), row |-> r, v |-> lp.rows[r][i]]
+                                                 : i \in keep, r \in 1..Len(lp.rows)}],
+             errs |-> errs]
+\* one block: create or reopen, store the items, then the loop, prune the container
 P_Block(acc, c, b) ==
     LET st == acc.st
         M == {x \in P_ContsOf(st, c) : x.parent = 0 /\ x.norm = NormC(b.code)}
@@ -515,7 +533,8 @@ P_Block(acc, c, b) ==
         st1 == IF M = {} THEN [st EXCEPT !.cont = @ \cup {[cif |-> c, id |-> id, parent |-> 0, norm |-> NormC(b.code), orig |-> b.code, nl |-> 0]},
                                           !.nextId[c] = id + 1]
                ELSE st
-        a1 == P_Items([st |-> st1, errs |-> IF M = {} THEN acc.errs ELSE Append(acc.errs, DUP_BLOCKCODE)], c, id, b.items)
+        a0 == P_Items([st |-> st1, errs |-> IF M = {} THEN acc.errs ELSE Append(acc.errs, DUP_BLOCKCODE)], c, id, b.items)
+        a1 == IF "loop" \in DOMAIN b THEN P_Loop(a0, c, id, b.loop) ELSE a0
         dead == {l \in P_LoopsOf(a1.st, c, id) : P_Rows(a1.st, l) = {}}
     IN [st |-> [a1.st EXCEPT !.loops = @ \ dead], errs |-> a1.errs]
 RECURSIVE P_Blocks(_, _, _)
@@ -562,7 +581,7 @@ EnabledResults == {r \in Results : r.en}
 Probes == {r.e : r \in {x \in EnabledResults : x.new = Cur}}
 
 \* r's log entry agrees with the partial entry sc on every field sc gives
-Matches(e, sc) == \A f \in DOMAIN sc : f \in DOMAIN e /\ e[f] = sc[f]
+Matches(e, sc) == e.op = sc.op /\ \A f \in DOMAIN sc : f \in DOMAIN e /\ e[f] = sc[f]      \* (op first: fields of the same name hold different types in different calls)
 
 Next == \E r \in EnabledResults :
            /\ Len(hist) < MaxHist + Len(SCRIPT)
